@@ -22,4 +22,22 @@ PROPS = {
         ],
         rule="det mode: 2-5 threads x 1-5 lock/try_lock/unlock operations, seeded random schedules with stickiness; non-trivial = at least one waiter registered (q.push in the trace); distinct = SHA-1 of the canonical trace",
     ),
+    "C10": dict(
+        lean_props=["MayVerif.Props.C10"],
+        families=[
+            dict(mode="det", name="sem", quick=2500, thorough=20000, nontrivial=r" q\.push "),
+            dict(mode="det", name="syncflag", quick=1500, thorough=15000, nontrivial=r" q\.push "),
+        ],
+        trusted_base=TB_COMMON + [
+            "ThreadPark is replaced by the controller's virtual token in det mode; a time-out is a schedule choice of the controller (the real parking_lot implementation and real clocks are not exercised there)",
+            "crossbeam::queue::SegQueue (the waiter queue) is an atomic FIFO at this layer (external crate, modelled by contract)",
+            "isize arithmetic is modelled by unbounded integers: Semphore::new asserts init < isize::MAX and post asserts cnt < isize::MAX (overflow is a panic, not modelled); SyncFlag's latch theorem states the bound on concurrent waits explicitly",
+        ],
+        assumptions=[
+            "fair scheduling for the no-stranded-waiter theorems (quiescence form)",
+            "det mode exercises thread actors only: coroutine actors and real cancellation (Err(Canceled) + trigger_cancel_panic) are covered by the model (Env.abort at every park) but not by replayed traces",
+            "SyncFlag: fewer than isize::MAX actors (concurrent waits), stated as hypothesis n < MAXI of syncflag_latch",
+        ],
+        rule="det mode: 2-5 threads x 1-6 operations (sem: wait / wait_timeout / try_wait / post / get_value, init 0..3; syncflag: fire / wait / wait_timeout / is_fired), virtual time-outs fired by the controller (120 per mille), seeded random schedules with stickiness; non-trivial = at least one waiter registered (q.push in the trace); distinct = SHA-1 of the canonical trace",
+    ),
 }
